@@ -22,3 +22,10 @@ Definition slices_Sort (l : list bytes) : list bytes := sort_bytes l.
 
 Definition set_elems (s : sset) (l : list bytes) : sset := {| elems := l; maxlen := maxlen s |}.
 Definition set_maxlen (s : sset) (m : N) : sset := {| elems := elems s; maxlen := m |}.
+
+(* v, found := m[k] on an http.Header *)
+Definition map_lookup2 (h : hmap) (k : bytes) : list bytes * bool :=
+  match hget h k with
+  | Some v => (v, true)
+  | None => ([], false)
+  end.
